@@ -51,8 +51,6 @@ func (w *World) writerBoundaries() map[*ssa.Function]string {
 	add("(*Encoder).writeList", "list")
 	add("(*Encoder).writeMap", "map")
 	add("(*Encoder).writeObject", "object")
-	add("(*Encoder).writeClsDef", "classdef")
-	add("(*Encoder).existClassDef", "lookup")
 	if reg := w.encRegistrar(); reg != nil {
 		out[reg] = "register"
 	}
@@ -130,7 +128,9 @@ func (w *World) writerPaths(fn *ssa.Function) *writerInfo {
 				}
 			} else {
 				for _, a := range args {
-					ev.Args = append(ev.Args, px.term(a, fr, st))
+					t := px.term(a, fr, st)
+					ev.Args = append(ev.Args, t)
+					ev.Orig = append(ev.Orig, st.originOf(t))
 				}
 			}
 			// the loop the call sits in (for count = bound rules)
@@ -176,6 +176,37 @@ func (w *World) writerPaths(fn *ssa.Function) *writerInfo {
 			// the registrar's and the lookup's results stay symbolic
 			return false
 		},
+		havoc: func(fr *pxFrame, lp *loopInfo) bool {
+			// search loops: no event can happen inside and nothing but local
+			// variables is assigned (the class-definition lookup)
+			for b := range lp.body {
+				for _, in := range b.Instrs {
+					switch x := in.(type) {
+					case *ssa.Store:
+						if _, ok := x.Addr.(*ssa.Alloc); !ok {
+							return false
+						}
+					case *ssa.MapUpdate, *ssa.Send, *ssa.Go, *ssa.Defer:
+						return false
+					case *ssa.Call:
+						sc := x.Call.StaticCallee()
+						if sc == nil {
+							if _, isB := x.Call.Value.(*ssa.Builtin); !isB {
+								return false
+							}
+							continue
+						}
+						if bset[sc] || reachesBoundary[sc] {
+							return false
+						}
+						if w.inPkg(sc) && len(px.modFields(sc)) > 0 {
+							return false
+						}
+					}
+				}
+			}
+			return true
+		},
 		inline: func(fr *pxFrame, callee *ssa.Function) bool {
 			// helpers that can emit are stepped into; so are small helpers whose results
 			// are integers / booleans (header-form choosers); the rest stays symbolic
@@ -188,7 +219,7 @@ func (w *World) writerPaths(fn *ssa.Function) *writerInfo {
 			}
 			for i := 0; i < res.Len(); i++ {
 				if _, _, isInt := intTypeInfo(w, res.At(i).Type()); !isInt {
-					if b, ok := res.At(i).Type().Underlying().(*types.Basic); !ok || b.Info()&types.IsBoolean == 0 {
+					if b, ok := res.At(i).Type().Underlying().(*types.Basic); !ok || b.Info()&(types.IsBoolean|types.IsString) == 0 {
 						return false
 					}
 				}
